@@ -4,8 +4,12 @@ Streams
   sess         (reused from props/_session.py) Session API calls issued by real threads in lock-step vs. M3; oracle: every
                attachment a fired event references exists on disk with the written content at that moment, names distinct
                (blocks left by an exception — `attachAbort` — must not be referenced at all).
-  C06.run      k concurrently running tests x 0..3 lcc.Threads each through the REAL runner.run_suites with
-               nb_threads >= 2; self-describing payloads; a turn controller releases the logging calls of the live
+  C06.run      k tests x 0..3 lcc.Threads each through the REAL runner.run_suites, concurrently (nb_threads 2..6) or one at a
+               time (1 worker), the REAL console reporting backend attached as `lcc run` does (sequential / parallel flavour,
+               its output routed away from the check's stdout); suite trees with NESTING whose names repeat across levels
+               (alpha / alpha.beta / beta / beta.alpha, a sub-suite named like its parent) and same-named tests in same-named
+               suites — every payload names the FULL PATH of its test; step descriptions and record texts that are empty,
+               blank, several lines, very long; self-describing payloads; a turn controller releases the logging calls of the live
                emitters in seeded interleavings (several at once when the line scheduler is on); the final report
                and the attachments directory are decoded by the oracle; the recorded fired-event stream is folded
                by the Lean writer model and the resulting report compared with the real one.
@@ -22,9 +26,11 @@ import inspect
 import os
 import re
 import shutil
+import sys
 import tempfile
 import threading
 import time
+import urllib.parse
 
 import common as C
 from gen import reports as R
@@ -32,9 +38,10 @@ from props import _session
 from sched import linesched as LS
 
 PROPERTY = "C06"
-LEAN_MODULES = ["LccModel.Props.C06", "LccModel.Props.C06Store", "LccModel.Proto", "LccModel.ProtoReport"]   # the last two: what drivers/C06.lean imports besides the models
-PROPS_FILES = ["LccModel/Props/C06.lean", "LccModel/Props/C06Store.lean"]
-NAMESPACES = {"LccModel/Props/C06.lean": "LccModel.C06", "LccModel/Props/C06Store.lean": "LccModel.C06Store"}
+LEAN_MODULES = ["LccModel.Props.C06", "LccModel.Props.C06Store", "LccModel.Props.C06Loc", "LccModel.Proto", "LccModel.ProtoReport"]   # the last two: what drivers/C06.lean imports besides the models
+PROPS_FILES = ["LccModel/Props/C06.lean", "LccModel/Props/C06Store.lean", "LccModel/Props/C06Loc.lean"]
+NAMESPACES = {"LccModel/Props/C06.lean": "LccModel.C06", "LccModel/Props/C06Store.lean": "LccModel.C06Store",
+              "LccModel/Props/C06Loc.lean": "LccModel.C06Loc"}
 DRIVER = "drivers/C06.lean"
 TRUSTED_BASE = [
     "Lean 4.33.0 kernel; axioms of the property theorems within {propext, Classical.choice, Quot.sound}",
@@ -54,7 +61,13 @@ ASSUMPTIONS = [
     "user code logs through the public API (lcc.log_*, check_that/log_check, log_url, save_attachment_*, set_step, lcc.Thread)",
     "a result (test, suite setup/teardown, session setup/teardown) is started once per run (no second TestStart for a path)",
 ]
-RULE = ("C06.run / C06.store: the source of save_attachment_file / save_image_file is also a scratch file the emitter REUSES "
+RULE = ("C06.run: suite forests are flat (s0, s1) or nested with names from a pool of three at EVERY level (a top-level suite named like "
+        "a sub-suite of an earlier / a later top-level suite, a sub-suite named like its parent, the same test name in same-named suites); "
+        "1 worker (tests one at a time, console backend sequential) or 2..6; the real console backend attached in 92 % of the cases, "
+        "terminal width 1..120; step descriptions blank / multi-line / 200..5000 characters / empty (empty: generated when the tree takes "
+        "\"\" for a step, always in the corpus), log / check / url / attachment texts decorated the same way, empty log messages and check "
+        "descriptions.  "
+        "C06.run / C06.store: the source of save_attachment_file / save_image_file is also a scratch file the emitter REUSES "
         "(rewritten in place, appended to, truncated, replaced, deleted after it was attached; attached again with other contents), "
         "spelled absolute or relative, or reached through a relative / absolute symlink; attachments are compared with the content at "
         "attach time when the event fires and again at the END of the run.  "
@@ -67,7 +80,9 @@ RULE = ("C06.run / C06.store: the source of save_attachment_file / save_image_fi
         "prepare_attachment; sess: >= 2 thread ids or a step change; distinct = hash of the case incl. schedule seed")
 EXPLANATION = ("Theorems over all interleavings (LccModel.C06.*): cursor locality and event ownership (M3 invariant), every log "
                "lands in the emitting thread's own step at the event's location and nothing else changes (M3 composed with the "
-               "writer M4), attachment numbers strictly increasing under the lock for any number of threads (M14) with the "
+               "writer M4); a location is resolved by its FULL path from the top level: in every report tree with distinct sibling "
+               "names (names free to repeat across levels and parents) result nodes and locations correspond one to one and a record "
+               "changes the node at its own location only (LccModel.C06Loc.*, with the refutation of the any-depth lookup); attachment numbers strictly increasing under the lock for any number of threads (M14) with the "
                "lock-free refutation, file written before the event is fired; a stored attachment keeps the content its source had when it was "
                "attached whatever the test does to its files afterwards (LccModel.C06Store: copy semantics over a model of i-nodes and "
                "directory entries, with the refutation of the linking variant); the attachment events of the stream are exactly the "
@@ -194,7 +209,14 @@ class Turns:
 # ------------------------------------------------------------------------------------------------
 
 def payload(eid, inst, step, seq, kind):
-    return "P;e=%s;i=%d;s=%s;q=%d;k=%s" % (eid, inst, step, seq, kind)
+    """self-describing text of one record: emitter (= FULL PATH of its test / hook, `~cK` per lcc.Thread), step instance,
+    the description of the step current in the emitting thread (percent-encoded: it may be empty, blank, multi-line, long),
+    sequence number, kind"""
+    return "P;e=%s;i=%d;s=%s;q=%d;k=%s" % (eid, inst, urllib.parse.quote(step, safe=":#./~"), seq, kind)
+
+
+_PAYLOAD = re.compile(r"P;e=[^;\s]+;i=\d+;s=[^;\s]*;q=\d+;k=[a-z]+")
+_EXC_PAYLOAD = re.compile(r"P;e=[^;\s]+;i=\d+;s=[^;\s]*;q=\d+;k=exc")
 
 
 def parse_payload(s):
@@ -205,25 +227,40 @@ def parse_payload(s):
         k, _, v = part.partition("=")
         d[k] = v
     try:
-        return {"e": d["e"], "i": int(d["i"]), "s": d["s"], "q": int(d["q"]), "k": d["k"]}
+        return {"e": d["e"], "i": int(d["i"]), "s": urllib.parse.unquote(d["s"]), "q": int(d["q"]), "k": d["k"]}
     except (KeyError, ValueError):
         return None
 
 
-_EXC_PAYLOAD = re.compile(r"P;e=[^;\s]+;i=\d+;s=[^;\n]*;q=\d+;k=exc")
-
-
 def carried_payload(txt):
-    """the payload an entry carries: the entry's text itself, or — for the error log the framework writes when an
-    exception escapes the user code (`Caught unexpected exception …: <traceback>`) — the payload in the exception
-    message"""
-    if parse_payload(txt) is not None:
-        return txt
-    if isinstance(txt, str) and txt.startswith("Caught unexpected exception"):
+    """the payload an entry carries: inside the entry's text (which may be decorated: trailing blanks, more lines, a long
+    tail), or — for the error log the framework writes when an exception escapes the user code (`Caught unexpected
+    exception …: <traceback>`) — the payload in the exception message"""
+    if not isinstance(txt, str):
+        return None
+    if txt.startswith("Caught unexpected exception"):
         m = _EXC_PAYLOAD.search(txt)
-        if m:
-            return m.group(0)
-    return None
+        return m.group(0) if m else None
+    m = _PAYLOAD.search(txt)
+    return m.group(0) if m else None
+
+
+_DECOS = ["ws-tail", "multiline", "lead-nl", "trail-nl", "long"]
+
+
+def decorate(p, deco):
+    """the text of a record around its payload: messages / descriptions that are not one short line"""
+    if deco == "ws-tail":
+        return p + "   "
+    if deco == "multiline":
+        return p + "\nsecond line\n\nfourth line"
+    if deco == "lead-nl":
+        return "\n" + p
+    if deco == "trail-nl":
+        return p + "\n"
+    if deco == "long":
+        return p + " " + "x" * 3000
+    return p
 
 
 class _Abort(Exception):
@@ -299,23 +336,52 @@ class Emitter:
     def _rec(self, p, kind, **extra):
         self.log.append(dict({"payload": p, "kind": kind, "ident": threading.get_ident()}, **extra))
 
+    def _text(self, a, at):
+        """the text of the record of act `a` around its payload (`a[at]`, when present: a decoration name)"""
+        return a[at] if len(a) > at else None
+
+    def _empty_record(self, emit):
+        """a record whose text is EMPTY carries no payload: it is identified by the ordinary record its thread emits right
+        after it (same act, no gate in between: inside one step object the two are adjacent)"""
+        emit("")
+        p = self._next("log")
+        self._rec(None, "empty", follower=p)
+        return p
+
     def act(self, a, scripts):
         import lemoncheesecake.api as lcc
         k = a[0]
         if k == "log":
+            fn = {"debug": lcc.log_debug, "info": lcc.log_info, "warn": lcc.log_warning, "error": lcc.log_error}[a[1]]
+            if self._text(a, 2) == "empty":
+                p = self._empty_record(fn)                 # log_info("") then an ordinary log
+                lcc.log_info(p)
+                self._rec(p, "log", text=p)
+                return
             p = self._next("log")
-            {"debug": lcc.log_debug, "info": lcc.log_info, "warn": lcc.log_warning, "error": lcc.log_error}[a[1]](p)
-            self._rec(p, "log")
+            txt = decorate(p, self._text(a, 2))
+            fn(txt)
+            self._rec(p, "log", text=txt)
         elif k == "check":
+            if self._text(a, 2) == "empty":
+                p = self._empty_record(lambda d: _S().log_check(d, bool(a[1]), None))
+                lcc.log_info(p)
+                self._rec(p, "log", text=p)
+                return
             p = self._next("check")
-            _S().log_check(p, bool(a[1]), None)
-            self._rec(p, "check")
+            txt = decorate(p, self._text(a, 2))
+            _S().log_check(txt, bool(a[1]), None)
+            self._rec(p, "check", text=txt)
         elif k == "url":
             p = self._next("url")
-            lcc.log_url("http://h/" + p, p)
-            self._rec(p, "url")
+            txt = decorate(p, self._text(a, 1))
+            lcc.log_url("http://h/" + p, txt)
+            self._rec(p, "url", text=txt)
         elif k == "att":
-            p = self._next("att")
+            p0 = self._next("att")
+            # the description IS the content written (compared by the oracle); both may be decorated
+            opt0 = a[2] if len(a) > 2 and isinstance(a[2], dict) else {}
+            p = decorate(p0, opt0.get("text"))
             if a[1] == "content":
                 lcc.save_attachment_content(p, "att.txt", p)
             elif a[1] == "image-content":
@@ -348,7 +414,7 @@ class Emitter:
                 with (lcc.prepare_image_attachment if a[1] == "prepare-image" else lcc.prepare_attachment)("att.txt", p) as path:
                     with open(path, "w") as fh:
                         fh.write(p)
-            self._rec(p, "att")
+            self._rec(p0, "att", text=p)
         elif k == "abort":
             # an attachment operation that fails: a[1] = how, a[2] = the test code handles the exception
             how, caught = a[1], a[2]
@@ -375,9 +441,15 @@ class Emitter:
                     raise _Abort(pe)
         elif k == "step":
             # ["step"]: a step with a fresh description; ["step", "again"]: set_step with the description of the step
-            # that is current in this thread (a polling loop) — a NEW step instance all the same
+            # that is current in this thread (a polling loop) — a NEW step instance all the same; ["step", "lit", d]: the
+            # description is the literal d (empty, blank, several lines …); ["step", "long", n]: a description of n characters
             self.inst += 1
-            if not (len(a) > 1 and a[1] == "again"):
+            if len(a) > 2 and a[1] == "lit":
+                self.step = a[2]
+            elif len(a) > 2 and a[1] == "long":
+                self.stepno += 1
+                self.step = ("%s#%d " % (self.eid, self.stepno) + "long description " * (a[2] // 17 + 1))[:max(a[2], 1)]
+            elif not (len(a) > 1 and a[1] == "again"):
                 self.stepno += 1
                 self.step = "%s#%d" % (self.eid, self.stepno)
             lcc.set_step(self.step)
@@ -443,7 +515,68 @@ def gen_att(rng):
     if mode.endswith("-reuse"):
         # the emitter's one scratch file, rewritten in place for this capture; what happens to it afterwards; its spelling
         return ["att", mode, {"after": rng.choice(_AFTER), "via": rng.choice(_VIA)}]
+    if mode != "nested" and rng.random() < 0.12:
+        return ["att", mode, {"text": rng.choice(["multiline", "long", "ws-tail", "trail-nl"])}]
     return ["att", mode]
+
+
+# step descriptions that are not one short line of text; "" (an untitled step) is generated only when the tree treats it as a
+# step like any other (`empty_step_is_a_step`; hand-written corpus cases use it regardless)
+_STEP_BLANK = [" ", "   ", "\t", " \t "]
+_STEP_LINES = ["a\nb", "\nleading newline", "trailing newline\n", "\n", "first\n\nthird", "a\r\nb", "one\ntwo\nthree\n"]
+
+
+def gen_text(rng, empty_ok=True):
+    """decoration of a log message / check description: None (most of them), "empty", or one of _DECOS"""
+    r = rng.random()
+    if r < 0.80:
+        return None
+    if r < 0.86 and empty_ok:
+        return "empty"
+    return rng.choice(_DECOS)
+
+
+_EMPTY_STEP = {}
+
+
+def empty_step_is_a_step():
+    """does the Session under test treat `set_step("")` as a step like any other?  Probe on the real Session: set_step(""), a
+    log, set_step("x") — was the untitled step ENDED (a StepEnd fired for it)?  (An implementation that tests `if cursor.step:`
+    never ends it and `lcc.Thread.run`'s `end_step()` asserts on it: generated cases then keep "" out; C07's business.)"""
+    if "v" not in _EMPTY_STEP:
+        import lemoncheesecake.events as E
+        import lemoncheesecake.session as S
+        from lemoncheesecake.reporting import Report
+        from lemoncheesecake.testtree import BaseTest
+        seen = []
+
+        class RecEM(E.EventManager):
+            def fire(self, event):
+                seen.append((type(event).__name__, getattr(event, "step", None)))
+        old = S.Session._instance
+        tmp = tempfile.mkdtemp(prefix="lccverif-c06p-")
+        box = {}
+
+        def probe():
+            try:
+                session = S.Session(RecEM.load(), tmp, Report())
+                S.Session._instance = session
+                session.start_test(R._node_chain(["s", "t"], _session.md_of("t", 0), BaseTest))
+                session.set_step("")
+                session.log_info("x")
+                session.set_step("x")
+                box["v"] = ("StepEndEvent", "") in seen
+            except Exception:  # noqa — an implementation that rejects "" does not treat it as a step either
+                box["v"] = False
+        try:
+            th = threading.Thread(target=probe, name="lccverif-probe")
+            th.start()
+            th.join(20)
+        finally:
+            S.Session._instance = old
+            shutil.rmtree(tmp, ignore_errors=True)
+        _EMPTY_STEP["v"] = bool(box.get("v"))
+    return _EMPTY_STEP["v"]
 
 
 def gen_abort(rng):
@@ -452,8 +585,25 @@ def gen_abort(rng):
 
 
 def gen_step(rng):
-    """a step change; one in three sets the description of the current step AGAIN (`set_step("poll")` in a loop)"""
-    return ["step", "again"] if rng.random() < 0.33 else ["step"]
+    """a step change; one in three sets the description of the current step AGAIN (`set_step("poll")` in a loop); one in four
+    has a description that is blank, several lines, very long or (where the tree takes it for a step) empty"""
+    r = rng.random()
+    if r < 0.30:
+        return ["step", "again"]
+    if r < 0.55:
+        q = rng.random()
+        if q < 0.25 and empty_step_is_a_step():
+            return ["step", "lit", ""]
+        if q < 0.50:
+            return ["step", "lit", rng.choice(_STEP_BLANK)]
+        if q < 0.88:
+            return ["step", "lit", rng.choice(_STEP_LINES)]
+        return ["step", "long", rng.choice([200, 1000, 5000])]
+    return ["step"]
+
+
+def _with_text(act, deco):
+    return act + [deco] if deco else act
 
 
 def gen_script(rng, nthreads, size, heavy=False):
@@ -471,9 +621,11 @@ def gen_script(rng, nthreads, size, heavy=False):
         else:
             k = rng.choice(kinds)
             if k == "log":
-                acts.append(["log", rng.choice(["debug", "info", "warn", "info", "error" if rng.random() < 0.2 else "info"])])
+                acts.append(_with_text(["log", rng.choice(["debug", "info", "warn", "info", "error" if rng.random() < 0.2 else "info"])], gen_text(rng)))
             elif k == "check":
-                acts.append(["check", rng.random() < 0.8])
+                acts.append(_with_text(["check", rng.random() < 0.8], gen_text(rng)))
+            elif k == "url":
+                acts.append(_with_text(["url"], gen_text(rng, empty_ok=False)))
             elif k == "att":
                 acts.append(gen_att(rng))
             elif k == "abort":
@@ -495,9 +647,11 @@ def gen_child(rng, size, heavy=False):
     for _ in range(size):
         k = rng.choice(kinds)
         if k == "log":
-            out.append(["log", rng.choice(["debug", "info", "warn"])])
+            out.append(_with_text(["log", rng.choice(["debug", "info", "warn"])], gen_text(rng)))
         elif k == "check":
-            out.append(["check", rng.random() < 0.8])
+            out.append(_with_text(["check", rng.random() < 0.8], gen_text(rng)))
+        elif k == "url":
+            out.append(_with_text(["url"], gen_text(rng, empty_ok=False)))
         elif k == "att":
             out.append(gen_att(rng))
         elif k == "abort":
@@ -509,27 +663,111 @@ def gen_child(rng, size, heavy=False):
     return out
 
 
+# ---- suite trees ---------------------------------------------------------------------------------------------------
+# a suite description: {"name", "tests": [...], "setup", "teardown", "subs": [suite descriptions]}; sibling names (suites among
+# suites, tests among tests) are distinct — the loader guarantees it —, everything else is free: a name may come back at
+# another level or under another parent, and tests of different suites may share their name.
+
+_SUITE_NAMES = ["alpha", "beta", "gamma"]
+_TEST_NAMES = ["exchange", "probe", "alpha"]          # a test may also be named like a suite
+
+
+def _sd(name, subs=()):
+    return {"name": name, "tests": [], "setup": None, "teardown": None, "subs": list(subs)}
+
+
+def walk_suites(suites, prefix=()):
+    """(path tuple, suite description) of every suite of the forest, parents first (the order flatten_suites uses)"""
+    for sd in suites:
+        path = tuple(prefix) + (sd["name"],)
+        yield path, sd
+        yield from walk_suites(sd.get("subs") or [], path)
+
+
+def prune_suites(suites):
+    """drop the suites that hold no test at any depth"""
+    out = []
+    for sd in suites:
+        sd = dict(sd, subs=prune_suites(sd.get("subs") or []))
+        if sd["tests"] or sd["subs"]:
+            out.append(sd)
+    return out
+
+
+_SHAPES = {
+    # the parent of the same-named sub-suite comes first / comes later
+    "sub-then-top": lambda: [_sd("alpha", [_sd("beta")]), _sd("beta")],
+    "top-then-sub": lambda: [_sd("beta"), _sd("alpha", [_sd("beta")])],
+    # symmetric: whichever top-level suite starts first, the other one is named like one of its sub-suites
+    "symmetric": lambda: [_sd("alpha", [_sd("beta")]), _sd("beta", [_sd("alpha")])],
+    "like-parent": lambda: [_sd("alpha", [_sd("alpha")]), _sd("beta")],
+    "deep": lambda: [_sd("alpha", [_sd("beta", [_sd("alpha")])]), _sd("beta", [_sd("gamma")]), _sd("gamma")],
+}
+
+
+def gen_forest(rng):
+    """-> (shape name, forest without tests)"""
+    r = rng.random()
+    if r < 0.45:
+        return "flat", [_sd("s%d" % i) for i in range(rng.choice([1, 1, 2]))]
+    if r < 0.82:
+        shape = rng.choice(sorted(_SHAPES))
+        return shape, _SHAPES[shape]()
+    # random: names from a pool of three at every level, at most six suites, depth <= 3
+
+    def level(depth, budget):
+        out = []
+        for name in rng.sample(_SUITE_NAMES, rng.randint(1, 3 if depth == 0 else 2)):
+            if budget[0] <= 0:
+                break
+            budget[0] -= 1
+            sd = _sd(name)
+            if depth < 2 and rng.random() < (0.7 if depth == 0 else 0.4):
+                sd["subs"] = level(depth + 1, budget)
+            out.append(sd)
+        return out
+    return "random", level(0, [6])
+
+
+def _gen_test(rng, name, heavy):
+    nthr = rng.choice([0, 0, 1, 1, 2, 3])
+    return {"name": name, "main": gen_script(rng, nthr, rng.randint(2, 7), heavy),
+            "threads": [gen_child(rng, rng.randint(1, 5), heavy) for _ in range(nthr)]}
+
+
 def gen_run_case(rng, line=None):
     k = rng.randint(2, 6)
-    n = rng.randint(2, 6)
-    nsuites = rng.choice([1, 1, 2])
-    suites = [{"name": "s%d" % i, "tests": [], "setup": None, "teardown": None} for i in range(nsuites)]
+    # one worker: tests one at a time (the sequential flavour of the console backend); lcc.Threads still run concurrently
+    n = 1 if (line is None and rng.random() < 0.22) else rng.randint(2, 6)
     heavy = line is not None and rng.random() < 0.5     # attachment-heavy scripts: pre-emption inside prepare_attachment
-    for i in range(k):
-        nthr = rng.choice([0, 0, 1, 1, 2, 3])
-        size = rng.randint(2, 7)
-        t = {"name": "t%d" % i, "main": gen_script(rng, nthr, size, heavy),
-             "threads": [gen_child(rng, rng.randint(1, 5), heavy) for _ in range(nthr)]}
-        suites[rng.randrange(nsuites)]["tests"].append(t)
-    suites = [s for s in suites if s["tests"]]
+    shape, forest = gen_forest(rng)
+    nodes = [sd for _, sd in walk_suites(forest)]
+    if shape == "flat":
+        for i in range(k):
+            rng.choice(nodes)["tests"].append(_gen_test(rng, "t%d" % i, heavy))
+    else:
+        # the same test name in (nearly) every suite, then more tests up to k; sibling test names stay distinct
+        common = rng.choice(_TEST_NAMES[:2])
+        for sd in nodes:
+            if rng.random() < 0.85:
+                sd["tests"].append(_gen_test(rng, common, heavy))
+        total = sum(len(sd["tests"]) for sd in nodes)
+        for i in range(max(0, k - total)):
+            sd = rng.choice(nodes)
+            free = [x for x in _TEST_NAMES if x not in [t["name"] for t in sd["tests"]]] or ["t%d" % i]
+            sd["tests"].append(_gen_test(rng, rng.choice(free), heavy))
+    suites = prune_suites(forest)
+    if not suites:
+        suites = [dict(forest[0], tests=[_gen_test(rng, "exchange", heavy)], subs=[])]
+    nodes = [sd for _, sd in walk_suites(suites)]
     # hooks that log at the suite-setup / suite-teardown locations while tests of other suites run; a setup hook
     # may start an lcc.Thread itself (Thread.__init__ then fires the held SuiteSetupStart event)
     if rng.random() < 0.35:
-        sd = rng.choice(suites)
+        sd = rng.choice(nodes)
         nthr = rng.choice([0, 0, 1])
         sd["setup"] = {"main": gen_script(rng, nthr, rng.randint(1, 4), heavy), "threads": [gen_child(rng, rng.randint(1, 3), heavy) for _ in range(nthr)]}
     if rng.random() < 0.25:
-        sd = rng.choice(suites)
+        sd = rng.choice(nodes)
         sd["teardown"] = {"main": gen_child(rng, rng.randint(1, 3), heavy), "threads": []}
     width = 1
     if line is not None:
@@ -538,7 +776,9 @@ def gen_run_case(rng, line=None):
         width = 2
     sched = {"strategy": rng.choice(["random", "random", "rr", "lifo", "fifo"] + (["free"] if rng.random() < 0.5 else [])),
              "width": width, "seed": rng.randrange(1 << 30)}
-    return {"n": n, "suites": suites, "sched": sched, "line": line}
+    # the console reporting backend, attached as `lcc run` does by default (terminal width: an input); now and then none
+    console = None if rng.random() < 0.08 else {"width": rng.choice([80, 80, 80, 120, 40, 12, 4, 1])}
+    return {"n": n, "suites": suites, "sched": sched, "line": line, "console": console}
 
 
 # ------------------------------------------------------------------------------------------------
@@ -549,6 +789,50 @@ def _traced_files():
     import lemoncheesecake.session as S
     import lemoncheesecake.reporting.writer as W
     return [os.path.abspath(S.__file__), os.path.abspath(W.__file__)]
+
+
+class _StdoutRouter:
+    """stands in for sys.stdout from the first real run on: what the harness itself prints (main thread / the thread that
+    called real_run — VIOLATION lines are parsed from stdout) goes through; what any other thread writes — the console
+    backend prints from the event-handling thread, progress lines with "\\r" — is counted and dropped"""
+
+    def __init__(self, real):
+        self.real, self.owner, self.count = real, None, 0
+        self.lock = threading.Lock()
+
+    def _mine(self):
+        t = threading.current_thread()
+        return t is threading.main_thread() or t is self.owner
+
+    def write(self, text):
+        if self._mine():
+            return self.real.write(text)
+        with self.lock:
+            self.count += len(text)
+        return len(text)
+
+    def flush(self):
+        if self._mine():
+            self.real.flush()
+
+    def isatty(self):
+        return False
+
+    def taken(self):
+        with self.lock:
+            n, self.count = self.count, 0
+        return n
+
+    def __getattr__(self, name):
+        return getattr(self.real, name)
+
+
+def _route_stdout():
+    if not isinstance(sys.stdout, _StdoutRouter):
+        sys.stdout = _StdoutRouter(sys.stdout)
+    sys.stdout.owner = threading.current_thread()
+    sys.stdout.taken()
+    return sys.stdout
 
 
 def real_run(case):
@@ -577,24 +861,21 @@ def real_run(case):
     turns = Turns(_random.Random(sc["seed"]), sc["strategy"], sc.get("width", 1))
     srcdir = tempfile.mkdtemp(prefix="lccverif-c06src-")
     run = _Run(turns, srcdir)
-    suites = []
-    for si, sd in enumerate(case["suites"]):
-        suite = Suite(None, sd["name"], "S:" + sd["name"])
+    def build(sd, si, prefix):
+        spath = ".".join(prefix + [sd["name"]])
+        suite = Suite(None, sd["name"], "S:" + spath)
         suite.rank = si
         if sd.get("setup"):
-            def mk_setup(sd):
-                def setup_suite():
-                    Emitter(run, sd["name"] + "/setup", "Setup suite").main(sd["setup"]["main"], sd["setup"]["threads"])
-                return setup_suite
-            suite.add_hook("setup_suite", mk_setup(sd))
+            def setup_suite():
+                Emitter(run, spath + "/setup", "Setup suite").main(sd["setup"]["main"], sd["setup"]["threads"])
+            suite.add_hook("setup_suite", setup_suite)
         if sd.get("teardown"):
-            def mk_teardown(sd):
-                def teardown_suite():
-                    Emitter(run, sd["name"] + "/teardown", "Teardown suite").main(sd["teardown"]["main"], sd["teardown"]["threads"])
-                return teardown_suite
-            suite.add_hook("teardown_suite", mk_teardown(sd))
+            def teardown_suite():
+                Emitter(run, spath + "/teardown", "Teardown suite").main(sd["teardown"]["main"], sd["teardown"]["threads"])
+            suite.add_hook("teardown_suite", teardown_suite)
         for ti, td in enumerate(sd["tests"]):
-            path = sd["name"] + "." + td["name"]
+            # the emitter's id is the FULL PATH of its test: same-named tests of same-named suites stay apart
+            path = spath + "." + td["name"]
 
             def mk_body(td, path):
                 def body():
@@ -603,14 +884,28 @@ def real_run(case):
             test = Test(td["name"], "D:" + path, mk_body(td, path))
             test.rank = ti
             suite.add_test(test)
-        suites.append(suite)
+        for xi, sub in enumerate(sd.get("subs") or []):
+            suite.add_suite(build(sub, xi, prefix + [sd["name"]]))
+        return suite
+    suites = [build(sd, si, []) for si, sd in enumerate(case["suites"])]
+    ntests = sum(len(sd["tests"]) for _, sd in walk_suites(case["suites"]))
     resolve_tests_dependencies(suites, suites)
 
     old_inst = S.Session._instance
     sched = None
     linfo = None
     try:
-        session = S.Session.create(RecEM.load(), [], tmp, None, nb_threads=case["n"])
+        # reporting backends as `lcc run` attaches them: the console backend (sequential flavour unless tests really run in
+        # parallel — Project.run's rule), listening on the same event-handling thread as the ReportWriter
+        backends, parallel = [], case["n"] > 1 and ntests > 1
+        cons = case.get("console", {"width": 80})
+        if cons:
+            from lemoncheesecake.reporting.backends.console import ConsoleBackend
+            cb = ConsoleBackend()
+            cb.terminal_width = cons["width"]
+            backends.append(cb)
+        sink = _route_stdout()
+        session = S.Session.create(RecEM.load(), backends, tmp, None, nb_threads=case["n"], parallelized=parallel)
         if case.get("line"):
             ln = case["line"]
             sched = LS.LineScheduler(_traced_files(), _random.Random(ln["seed"]), strategy=ln["strategy"], p=ln.get("p", 0.35),
@@ -659,7 +954,8 @@ def real_run(case):
             events.append(ev)
         emitted = {eid: [dict(x, ident=ren.get(x["ident"], 0)) for x in lst] for eid, lst in run.emitted.items()}
         return {"report": report, "files": files, "at_fire": dict(at_fire), "fired": events, "emitted": emitted, "errors": run.errors,
-                "raised": outcome["raised"], "gate_timeouts": turns.timeouts, "max_live": turns.max_live, "line": linfo}
+                "raised": outcome["raised"], "gate_timeouts": turns.timeouts, "max_live": turns.max_live, "line": linfo,
+                "console": ("parallel" if parallel else "sequential") if cons else None, "console_chars": sink.taken()}
     finally:
         if sched is not None and sched.enabled:
             sched.uninstall()
@@ -718,8 +1014,32 @@ def entry_payload(e):
 
 
 def owner_location(eid):
-    """the result an emitter's output belongs to: 's0.t1~c0~…' -> 's0.t1'; 's0/setup' -> 's0/setup'"""
+    """the result an emitter's output belongs to, by its FULL path: 'alpha.beta.t1~c0~…' -> 'alpha.beta.t1';
+    's0/setup' -> 's0/setup'"""
     return eid.split("~")[0]
+
+
+def expected_results(case, obs):
+    """locations (full paths) of the results the project can have; with an observation: of the results it MUST have — every
+    test whose body ran, every suite hook that ran (an emitter registered under that path)"""
+    out = set()
+    for path, sd in walk_suites(case["suites"]):
+        sp = ".".join(path)
+        for t in sd["tests"]:
+            out.add(sp + "." + t["name"])
+        for hook in ("setup", "teardown"):
+            if sd.get(hook):
+                out.add(sp + "/" + hook)
+    if obs is not None:
+        # a test whose body ran has a result; a hook has one once something was recorded in it (a hook that records nothing
+        # leaves no result: its start event is discarded)
+        ran = set()
+        for eid, lst in obs["emitted"].items():
+            loc = owner_location(eid)
+            if "/" not in loc or any(x["kind"] != "abort" for x in lst):
+                ran.add(loc)
+        out &= ran
+    return out
 
 
 def oracle_run(case, obs):
@@ -731,12 +1051,39 @@ def oracle_run(case, obs):
         fails.append(F("C06/logging-call-raised", "a logging call raised inside user code: " + err))
     report = obs["report"]
     where, alien = landing(report)
-    for loc, si, pi, txt in alien:
-        fails.append(F("C06/unexpected-entry", f"entry without payload at {loc} step {si}: {str(txt)[:120]}"))
-    emitted_all = {}
+    emitted_all, followers = {}, {}
     for eid, lst in obs["emitted"].items():
         for x in lst:
-            emitted_all[x["payload"]] = (eid, x)
+            if x["kind"] == "empty":
+                followers[x["follower"]] = eid      # a record with EMPTY text, emitted right before this ordinary one
+            else:
+                emitted_all[x["payload"]] = (eid, x)
+    # 0. the results of the report are the results of the project: every test (and every suite hook that logged) has its own
+    #    result at its own FULL path, nothing else is there (a result filed under another suite of the same name, or replaced
+    #    by the same-named test of another suite, shows here and as foreign / lost payloads below)
+    have = {loc for loc, _ in iter_results(report)}
+    if not obs["raised"]:
+        for loc in sorted(expected_results(case, obs) - have):
+            fails.append(F("C06/result-missing", f"{loc} ran but the report has no result at that path (results: {sorted(have)})"))
+    for loc in sorted(have - expected_results(case, None)):
+        fails.append(F("C06/result-unexpected", f"the report has a result at {loc}: the project has no test / hook there"))
+    # an entry without payload is legitimate only as the EMPTY record an emitter placed right before an ordinary one
+    by_pos = {}
+    for loc, res in iter_results(report):
+        for si, st in enumerate(res["steps"]):
+            for pi, e in enumerate(st["entries"]):
+                by_pos[(loc, si, pi)] = e
+    for loc, si, pi, txt in alien:
+        nxt = by_pos.get((loc, si, pi + 1))
+        if txt == "" and nxt is not None and entry_payload(nxt)[0] in followers:
+            continue
+        fails.append(F("C06/unexpected-entry", f"entry without payload at {loc} step {si}: {str(txt)[:120]!r}"))
+    for p, eid in followers.items():
+        for loc, si, pi in where.get(p, []):
+            prev = by_pos.get((loc, si, pi - 1))
+            if prev is None or entry_text(prev) != "":
+                fails.append(F("C06/payload-lost", f"the record with empty text {eid} emitted right before {p} is not in front of it "
+                                                  f"in step {si} of {loc}"))
     # 1. every emitted payload is recorded exactly once, in its own result
     for p, (eid, x) in emitted_all.items():
         places = where.get(p, [])
@@ -755,6 +1102,9 @@ def oracle_run(case, obs):
         for loc, si, pi in places:
             if loc != owner_location(eid):
                 fails.append(F("C06/payload-in-foreign-result", f"{p} emitted by {eid} is recorded in {loc}"))
+            got = entry_text(by_pos[(loc, si, pi)])
+            if x.get("text") is not None and got != x["text"] and not got.startswith("Caught unexpected exception"):
+                fails.append(F("C06/record-text-altered", f"{p}: emitted text {x['text'][:120]!r}, recorded {got[:120]!r}"))
     for p in where:
         if p not in emitted_all:
             pp = parse_payload(p)
@@ -862,6 +1212,18 @@ def interleaves(fired):
     return False
 
 
+_EXCHANGE = {"name": "exchange",
+             "main": [["log", "info"], ["spawn", 0], ["step"], ["check", True], ["att", "content"], ["join", 0], ["url"]],
+             "threads": [[["log", "info"], ["step"], ["att", "prepare"], ["log", "warn"]]]}
+_ODD_TEXTS = {"name": "t",
+              "main": [["step", "lit", "   "], ["log", "info", "empty"], ["spawn", 0], ["step", "lit", "a\nb"], ["check", True, "multiline"],
+                       ["step", "lit", "\nleading newline"], ["log", "warn", "lead-nl"], ["step", "long", 5000], ["url", "long"],
+                       ["step", "lit", "trailing newline\n"], ["check", False, "empty"], ["att", "content", {"text": "multiline"}],
+                       ["join", 0], ["step", "lit", "\t"], ["log", "info", "ws-tail"]],
+              "threads": [[["log", "info", "trail-nl"], ["step", "lit", "first\n\nthird"], ["log", "info", "empty"], ["step", "lit", " "],
+                           ["att", "prepare", {"text": "long"}], ["step", "long", 1000], ["check", True, "long"]]]}
+
+
 class RunStream(C.Stream):
     name = "C06.run"
     quick_cases = 220
@@ -937,6 +1299,49 @@ class RunStream(C.Stream):
                        ["check", True], ["step", "again"], ["url"], ["join", 0]],
               "threads": [[["log", "info"], ["step", "again"], ["log", "info"], ["step", "again"], ["att", "prepare"]]]}
              for i in range(2)]}]},
+        # ---- round 3 ----
+        # names that repeat ACROSS LEVELS: alpha / alpha.beta / beta / beta.alpha, a test `exchange` (with an lcc.Thread) in each
+        # of them, all four at once; then the same project one test at a time; a sub-suite named like its parent
+        {"n": 4, "line": None, "console": {"width": 80}, "sched": {"strategy": "rr", "width": 1, "seed": 8},
+         "suites": [{"name": a, "setup": None, "teardown": None, "tests": [dict(_EXCHANGE)],
+                     "subs": [{"name": b, "setup": None, "teardown": None, "tests": [dict(_EXCHANGE)], "subs": []}]}
+                    for a, b in (("alpha", "beta"), ("beta", "alpha"))]},
+        {"n": 1, "line": None, "console": {"width": 80}, "sched": {"strategy": "fifo", "width": 1, "seed": 9},
+         "suites": [{"name": a, "setup": None, "teardown": None, "tests": [dict(_EXCHANGE)],
+                     "subs": [{"name": b, "setup": {"main": [["log", "info"]], "threads": []}, "teardown": None,
+                               "tests": [dict(_EXCHANGE)], "subs": []}]}
+                    for a, b in (("alpha", "beta"), ("beta", "alpha"))]},
+        {"n": 2, "line": None, "console": {"width": 80}, "sched": {"strategy": "random", "width": 1, "seed": 10},
+         "suites": [{"name": "alpha", "setup": None, "teardown": {"main": [["log", "info"]], "threads": []}, "tests": [dict(_EXCHANGE)],
+                     "subs": [{"name": "alpha", "setup": None, "teardown": None, "tests": [dict(_EXCHANGE), dict(_EXCHANGE, name="alpha")],
+                               "subs": [{"name": "alpha", "setup": None, "teardown": None, "tests": [dict(_EXCHANGE)], "subs": []}]}]}]},
+        # minimised failing inputs of the seeded change C06-7 (a location's first element looked up among the suites of ANY depth)
+        {"n": 1, "line": None, "console": None, "sched": {"strategy": "fifo", "width": 1, "seed": 11},
+         "suites": [{"name": "alpha", "setup": None, "teardown": None, "tests": [],
+                     "subs": [{"name": "beta", "setup": None, "teardown": None, "subs": [],
+                               "tests": [{"name": "exchange", "main": [["log", "info"]], "threads": []}]}]},
+                    {"name": "beta", "setup": None, "teardown": None, "subs": [],
+                     "tests": [{"name": "exchange", "main": [["log", "info"]], "threads": []}]}]},
+        # an UNTITLED step (`set_step("")`) followed by records, the console backend in its sequential flavour (one worker): in
+        # the test thread, then in an lcc.Thread (which goes on to a titled step before it ends), more tests afterwards
+        {"n": 1, "line": None, "console": {"width": 80}, "sched": {"strategy": "fifo", "width": 1, "seed": 12},
+         "suites": [{"name": "s0", "setup": None, "teardown": None, "subs": [], "tests": [
+             {"name": "t0", "main": [["log", "info"], ["step", "lit", ""], ["log", "info"], ["check", True], ["step"], ["att", "content"]],
+              "threads": []},
+             {"name": "t1", "main": [["spawn", 0], ["log", "info"], ["join", 0], ["log", "info"]],
+              "threads": [[["log", "info"], ["step", "lit", ""], ["log", "warn"], ["url"], ["step"], ["log", "info"]]]},
+             {"name": "t2", "main": [["log", "info"], ["att", "prepare"]], "threads": []}]}]},
+        # minimised failing input of the seeded change C06-8 (the console backend's step handler raising on an empty description)
+        {"n": 1, "line": None, "console": {"width": 80}, "sched": {"strategy": "fifo", "width": 1, "seed": 13},
+         "suites": [{"name": "s0", "setup": None, "teardown": None, "subs": [], "tests": [
+             {"name": "t0", "main": [["step", "lit", ""], ["log", "info"]], "threads": []}]}]},
+        # descriptions and messages that are blank, several lines, very long, or (messages) empty — one worker / three workers,
+        # a narrow terminal
+        {"n": 1, "line": None, "console": {"width": 12}, "sched": {"strategy": "rr", "width": 1, "seed": 14},
+         "suites": [{"name": "s0", "setup": {"main": [["step", "lit", "\n"], ["log", "info", "multiline"]], "threads": []}, "teardown": None,
+                     "subs": [], "tests": [dict(_ODD_TEXTS, name="t%d" % i) for i in range(2)]}]},
+        {"n": 3, "line": None, "console": {"width": 80}, "sched": {"strategy": "random", "width": 2, "seed": 15},
+         "suites": [{"name": "s0", "setup": None, "teardown": None, "subs": [], "tests": [dict(_ODD_TEXTS, name="t%d" % i) for i in range(3)]}]},
     ]
 
     def __init__(self, ctx):
@@ -972,6 +1377,9 @@ class RunStream(C.Stream):
             return None
         if ans["error"] is not None:
             return f"model writer raises {ans['error']} at event {ans['handled']}, the real writer did not"
+        if ans.get("uniq") is False:
+            return ("sibling names of the report are not distinct (Writer.uniqNames, the hypothesis of LccModel.C06Loc.* — the "
+                    "generator keeps sibling names distinct)")
         m = R.unwire(ans["report"])
         real = obs["report"]
         for key in ("setup", "teardown", "suites", "start", "end"):
@@ -988,19 +1396,26 @@ class RunStream(C.Stream):
         return obs["max_live"] >= 2 and interleaves(obs["fired"])
 
     def features(self, case, obs):
-        ntests = sum(len(s["tests"]) for s in case["suites"])
-        nthr = sum(len(t["threads"]) for s in case["suites"] for t in s["tests"])
+        nodes = list(walk_suites(case["suites"]))
+        ntests = sum(len(sd["tests"]) for _, sd in nodes)
+        nthr = sum(len(t["threads"]) for _, sd in nodes for t in sd["tests"])
         f = ["workers=%d" % case["n"], "tests=%d" % ntests, "lccthreads=%d" % min(nthr, 6), "sched=" + case["sched"]["strategy"],
              "width=%d" % case["sched"].get("width", 1), "max_live=%d" % min(obs["max_live"], 8)]
+        f.append("console-backend=%s" % (obs.get("console") or "none"))
+        if obs.get("console_chars"):
+            f.append("console-backend-printed")
+        if case.get("console") and case["console"]["width"] < 40:
+            f.append("console-narrow-terminal")
+        f += tree_features(case["suites"])
         if case.get("line"):
             f.append("line=" + case["line"]["strategy"])
             if obs.get("line") and obs["line"]["switches"] > 0:
                 f.append("line-switched")
-        if any(s.get("setup") for s in case["suites"]):
+        if any(sd.get("setup") for _, sd in nodes):
             f.append("suite-setup-logs")
-        if any(s.get("setup") and s["setup"]["threads"] for s in case["suites"]):
+        if any(sd.get("setup") and sd["setup"]["threads"] for _, sd in nodes):
             f.append("suite-setup-lccthread")
-        if any(s.get("teardown") for s in case["suites"]):
+        if any(sd.get("teardown") for _, sd in nodes):
             f.append("suite-teardown-logs")
         if any(e["k"] == "att" for _, r in iter_results(obs["report"]) for st in r["steps"] for e in st["entries"]):
             f.append("attachments")
@@ -1010,20 +1425,11 @@ class RunStream(C.Stream):
                     f.append("attachment-aborted" + ("-after-write" if x.get("written") else ""))
                 elif x["kind"] == "exc":
                     f.append("attachment-abort-not-handled-by-test")
-        for s_ in case["suites"]:
+        for _, s_ in nodes:
             for t in s_["tests"] + [h for h in (s_.get("setup"), s_.get("teardown")) if h]:
-                for a in t["main"] + [b for ch in t["threads"] for b in ch]:
-                    if a[0] == "step" and len(a) > 1:
-                        f.append("step:same-description-again")
-                    if a[0] == "att" and a[1] not in ("content", "prepare"):
-                        f.append("att:" + a[1])
-                        if len(a) > 2:
-                            if a[2].get("after"):
-                                f.append("source-after-attach:" + a[2]["after"])
-                            if a[2].get("via"):
-                                f.append("source-spelled:" + a[2]["via"])
-                    elif a[0] == "abort":
-                        f.append("abort:" + a[1])
+                for where, script in [("main", t["main"])] + [("lccthread", ch) for ch in t["threads"]]:
+                    for a in script:
+                        f += act_features(a, where)
         f = sorted(set(f))
         if interleaves(obs["fired"]):
             f.append("interleaved")
@@ -1033,36 +1439,109 @@ class RunStream(C.Stream):
 
     def shrink(self, case):
         import copy
-        suites = case["suites"]
-        for si, s in enumerate(suites):
+
+        def nodes_of(c):
+            return [sd for _, sd in walk_suites(c["suites"])]
+        nodes = nodes_of(case)
+        for ni, s in enumerate(nodes):
             for ti in range(len(s["tests"])):
-                if sum(len(x["tests"]) for x in suites) > 1:
+                if sum(len(x["tests"]) for x in nodes) > 1:
                     c = copy.deepcopy(case)
-                    del c["suites"][si]["tests"][ti]
-                    c["suites"] = [x for x in c["suites"] if x["tests"]]
+                    del nodes_of(c)[ni]["tests"][ti]
+                    c["suites"] = prune_suites(c["suites"])
                     yield c
             for hook in ("setup", "teardown"):
                 if s.get(hook):
                     c = copy.deepcopy(case)
-                    c["suites"][si][hook] = None
+                    nodes_of(c)[ni][hook] = None
                     yield c
-        for si, s in enumerate(suites):
+        if case["n"] > 2:
+            yield dict(copy.deepcopy(case), n=2)
+        for ni, s in enumerate(nodes):
             for ti, t in enumerate(s["tests"]):
                 for ai, a in enumerate(t["main"]):
                     if a[0] in ("spawn", "join"):
                         continue
                     c = copy.deepcopy(case)
-                    del c["suites"][si]["tests"][ti]["main"][ai]
+                    del nodes_of(c)[ni]["tests"][ti]["main"][ai]
                     yield c
                 for ci, ch in enumerate(t["threads"]):
                     for ai in range(len(ch)):
                         c = copy.deepcopy(case)
-                        del c["suites"][si]["tests"][ti]["threads"][ci][ai]
+                        del nodes_of(c)[ni]["tests"][ti]["threads"][ci][ai]
                         yield c
         if case.get("line"):
             c = copy.deepcopy(case)
             c["line"] = None
             yield c
+
+
+def tree_features(suites):
+    """how names repeat in the suite forest"""
+    f = []
+    nodes = list(walk_suites(suites))
+    depth = max(len(p) for p, _ in nodes)
+    if depth > 1:
+        f.append("nesting-depth=%d" % depth)
+    levels = {}
+    for p, _ in nodes:
+        levels.setdefault(p[-1], set()).add(len(p))
+    if any(len(v) > 1 for v in levels.values()):
+        f.append("suite-name-across-levels")
+    if any(len(p) > 1 and p[-1] == p[-2] for p, _ in nodes):
+        f.append("sub-suite-named-like-its-parent")
+    tops = [sd["name"] for sd in suites]
+    for j, sd in enumerate(suites):
+        for i, other in enumerate(suites):
+            if i == j:
+                continue
+            if any(p[-1] == sd["name"] for p, _ in walk_suites(other.get("subs") or [])):
+                f.append("top-level-named-like-earlier-sub-suite" if i < j else "top-level-named-like-later-sub-suite")
+    seen = {}
+    for p, sd in nodes:
+        for t in sd["tests"]:
+            seen.setdefault((p[-1], t["name"]), set()).add(p)
+    if any(len(v) > 1 for v in seen.values()):
+        f.append("same-named-tests-in-same-named-suites")
+    names = [t["name"] for _, sd in nodes for t in sd["tests"]]
+    if len(names) != len(set(names)):
+        f.append("same-named-tests")
+    if any(t["name"] in tops or t["name"] in levels for _, sd in nodes for t in sd["tests"]):
+        f.append("test-named-like-a-suite")
+    return f
+
+
+def act_features(a, where):
+    f = []
+    if a[0] == "step" and len(a) > 1:
+        if a[1] == "again":
+            f.append("step:same-description-again")
+        elif a[1] == "long":
+            f.append("step-desc-long")
+        elif a[1] == "lit":
+            d = a[2]
+            if d == "":
+                f += ["step-desc-empty", "step-desc-empty:" + where]
+            elif d.strip() == "":
+                f.append("step-desc-whitespace")
+            if "\n" in d:
+                f += ["step-desc-multiline", "step-desc-multiline:" + where]
+    if a[0] in ("log", "check") and len(a) > 2:
+        f.append("%s-text-%s" % (a[0], a[2]))
+    if a[0] == "url" and len(a) > 1:
+        f.append("url-text-" + a[1])
+    if a[0] == "att" and len(a) > 2 and a[2].get("text"):
+        f.append("att-text-" + a[2]["text"])
+    if a[0] == "att" and a[1] not in ("content", "prepare"):
+        f.append("att:" + a[1])
+        if len(a) > 2:
+            if a[2].get("after"):
+                f.append("source-after-attach:" + a[2]["after"])
+            if a[2].get("via"):
+                f.append("source-spelled:" + a[2]["via"])
+    elif a[0] == "abort":
+        f.append("abort:" + a[1])
+    return f
 
 
 # ------------------------------------------------------------------------------------------------
